@@ -161,13 +161,30 @@ func (s *sut) step(r *ref, o op, out *stepOutcome) {
 		anomaly := "panic:" + digits.ReplaceAllString(res.panicMsg, "N")
 		if isOOM(res.panicMsg) && (o.K == opAlloc || o.K == opAllocUnified || o.K == opRemap || o.K == opDistribute || o.K == opMigrate) {
 			tags, codeFree, need := s.leakTags(s0, r, o)
-			if s.cfg.Buddy && (codeFree >= need || onlyTag(tags, "buddy-internal")) {
+			// buddy + unified target: the chunk is taken from ONE member GPU; when
+			// another member holds a free block that is large enough, the refusal is
+			// not fragmentation but the wrong choice of member
+			otherMemberHasBlock := false
+			if s.cfg.Buddy && s.unifiedTarget(o) {
+				for _, g := range s.cfg.Unified {
+					for _, b := range s0.free[g].ord {
+						if int(b.n) >= need {
+							otherMemberHasBlock = true
+						}
+					}
+				}
+			}
+			if s.cfg.Buddy && !otherMemberHasBlock && (codeFree >= need || onlyTag(tags, "buddy-internal")) {
 				out.end = endBuddyFragmentation
 				out.describe = fmt.Sprintf("buddy allocator refused %s: %d frames free in blocks, %d needed (%s)", o, codeFree, need, res.panicMsg)
 				r.update(o, res, s.finder(), s0.devOfFrame)
 				return
 			}
 			anomaly = "out-of-memory-within-capacity/leaked-by:" + strings.Join(tags, "+")
+			if (onlyTag(tags, "nothing") || onlyTag(tags, "buddy-internal")) && s.unifiedTarget(o) && codeFree >= need {
+				// nothing leaked and the member GPUs together have the frames
+				anomaly = "out-of-memory-within-capacity/unified-target/members-together-have-room"
+			}
 		}
 		f := fact{kind: anomaly, detail: fmt.Sprintf("%s panicked: %s", o, res.panicMsg)}
 		out.viols = append(out.viols, violation{sig: s.mkSig(o, r.class(o, touched, f, s.mirrorStolen(s0, touched), staleBefore), anomaly), msg: f.detail})
@@ -230,6 +247,14 @@ func (s *sut) step(r *ref, o op, out *stepOutcome) {
 			// that returns replaced frames may reuse them at once); aliasing
 			// is still excluded by the frame-aliased invariant on the result
 			continue
+		}
+		if d >= 0 && s.cfg.Buddy && !s0.free[d].has(x) && buddyInternal(s0, d, x, P) {
+			if _, live := ownerBefore[x]; !live {
+				// buddy: a frame handed back earlier (or padding) that was retained
+				// until the rest of its block was handed back - which this very call
+				// did before taking the frame again
+				continue
+			}
 		}
 		if d < 0 || !s0.free[d].has(x) {
 			addf(fact{kind: "handed-out-frame-was-not-free", keys: []pageKey{k}, obj: fmt.Sprintf("frame%#x", x*P),
@@ -412,11 +437,19 @@ func (s *sut) step(r *ref, o op, out *stepOutcome) {
 			break
 		}
 		cnt := make([]uint64, len(gl))
+		var allowed []int // a unified device in the list stands for its member GPUs
+		for _, g := range gl {
+			if g == s.cfg.unifiedID() {
+				allowed = append(allowed, s.cfg.Unified...)
+			} else {
+				allowed = append(allowed, g)
+			}
+		}
 		for _, k := range touched {
-			onTarget(k, gl)
-			d, _, ok := devOfKey(k)
+			onTarget(k, allowed)
+			_, pg, ok := devOfKey(k)
 			for i, g := range gl {
-				if ok && g == d {
+				if ok && uint64(g) == pg.DeviceID { // by the device RECORDED for the page: that is the list entry it was given to
 					cnt[i] += P
 				}
 			}
@@ -513,11 +546,38 @@ func (s *sut) step(r *ref, o op, out *stepOutcome) {
 	}
 }
 
+// buddyInternal: frame x of buddy device d is neither on a free list nor
+// tracked as allocated (padding of a block, or handed back and retained).
+func buddyInternal(sn *snapshot, d int, x, P uint64) bool {
+	for _, a := range sn.alloc.Devices[d].BuddyBlockAddr {
+		if a/P == x {
+			return false
+		}
+	}
+	return !sn.free[d].has(x)
+}
+
 func ownerKeysIn(m map[uint64]pageKey, x uint64) []pageKey {
 	if k, ok := m[x]; ok {
 		return []pageKey{k}
 	}
 	return nil
+}
+
+// unifiedTarget: the call allocates frames through the unified device.
+func (s *sut) unifiedTarget(o op) bool {
+	u := s.cfg.unifiedID()
+	switch o.K {
+	case opAlloc, opRemap:
+		return int(o.Dev) == u
+	case opDistribute:
+		for _, g := range s.cfg.GPULists[o.GPUs] {
+			if g == u {
+				return true
+			}
+		}
+	}
+	return false
 }
 
 func onlyTag(tags []string, t string) bool {
@@ -570,7 +630,13 @@ func (s *sut) leakTags(sn *snapshot, r *ref, o op) (tags []string, codeFree, nee
 		}
 	case opDistribute:
 		need = 1
-		devs = c.GPULists[o.GPUs]
+		for _, g := range c.GPULists[o.GPUs] {
+			if g == c.unifiedID() {
+				devs = append(devs, c.Unified...)
+			} else {
+				devs = append(devs, g)
+			}
+		}
 	case opMigrate:
 		need = 1
 		devs = []int{int(o.Dev)}
